@@ -138,6 +138,9 @@ pub struct Knobs {
     /// it sends a bare `go` and assumes the start position, like a GUI talking to a fresh engine
     #[serde(default = "yes")]
     pub resend_position: bool,
+    /// simulated time that passes on every clock read (0 = the clock only advances with work and faults)
+    #[serde(default)]
+    pub clock_read_step_ns: u64,
 }
 
 fn yes() -> bool {
@@ -146,7 +149,7 @@ fn yes() -> bool {
 
 impl Default for Knobs {
     fn default() -> Self {
-        Knobs { poll_interval: None, initial_hash_mb: Some(1), tau_ps: 250_000, policy: Policy::Uniform, spurious_permille: 0, resend_position: true }
+        Knobs { poll_interval: None, initial_hash_mb: Some(1), tau_ps: 250_000, policy: Policy::Uniform, spurious_permille: 0, resend_position: true, clock_read_step_ns: 0 }
     }
 }
 
@@ -182,6 +185,8 @@ pub struct ScenarioB {
     pub initial_hash_mb: usize,
     pub poll_interval: Option<u64>,
     pub tau_ps: u64,
+    #[serde(default)]
+    pub clock_read_step_ns: u64,
     pub steps: Vec<SearchStep>,
 }
 
